@@ -93,7 +93,8 @@ def gen_case(tape, tier):
             ops.append({"op": "crash_" + what, **({"key": key(ext), "value": nv} if what == "dump" else {}),
                         "at": tape.choose(7, "crash-at"), "torn": tape.pick([None, None, 1, -1, 20], "torn")})
         elif o == "get":
-            ops.append({"op": "get", "key": key(full)})
+            k = key(full)
+            ops.append({"op": "get", "key": {"bare": k[0]} if len(full) == 1 and tape.coin(0.3, "bare") else k})
         elif o == "to_array":
             ops.append({"op": "to_array", "splat": tape.pick([None, True, False], "splat")})
         elif o == "bad_get":
@@ -104,6 +105,8 @@ def gen_case(tape, tier):
                 k[ax] = full[ax] + tape.choose(2, "over") if tape.coin(0.5, "hi") else -full[ax] - 1 - tape.choose(2, "under")
             else:
                 k = k[:-1] if len(k) > 1 and tape.coin(0.5, "short") else k + [0]
+                if len(full) > 1 and tape.coin(0.3, "bare"):
+                    k = {"bare": k[0]}  # a bare index on an array of rank >= 2: one index too few
             ops.append({"op": "bad_get", "key": k})
         elif o == "bad_dump":
             bad = tape.pick(["range", "rank"], "bad")
@@ -113,6 +116,8 @@ def gen_case(tape, tier):
                 k[ax] = ext[ax] + tape.choose(2, "over") if tape.coin(0.5, "hi") else -ext[ax] - 1 - tape.choose(2, "under")
             else:
                 k = k + [0]
+                if len(ext) > 1 and tape.coin(0.4, "bare"):
+                    k = {"bare": k[0]}
             nv += 1
             ops.append({"op": "bad_dump", "key": k, "value": nv})
         elif o == "reopen":
@@ -138,7 +143,7 @@ def simplify(case):
             c["full"][ax] = n - 1
             yield c
     for i, op in enumerate(case["ops"]):
-        if "key" in op:
+        if "key" in op and isinstance(op["key"], list):
             for j, k in enumerate(op["key"]):
                 if isinstance(k, dict):
                     c = copy.deepcopy(case)
@@ -155,7 +160,10 @@ def simplify(case):
 
 
 def _key(k):
-    """JSON key -> Python key; {'np': n} is a NumPy integer (what index arithmetic on arrays produces)."""
+    """JSON key -> Python key; {'np': n} is a NumPy integer (what index arithmetic on arrays produces); a key
+    written {'bare': x} is passed as x itself, not wrapped in a tuple (arr[1], arr[:], arr.dump(1, v))."""
+    if isinstance(k, dict) and "bare" in k:
+        return _key([k["bare"]])[0]
     return tuple(slice(*x["slice"]) if isinstance(x, dict) and "slice" in x else (np.int64(x["np"]) if isinstance(x, dict) else x)
                  for x in k)
 
@@ -318,7 +326,8 @@ def _run_case(case, exec_seed=None, exec_tape=None):
                     if canon(got) != canon(exp):
                         V("model", "getitem-differs", {"step": i, "key": op["key"], "got": repr(canon(got))[:300], "expected": repr(canon(exp))[:300],
                                                        "full": case["full"], "mask": case["mask"]},
-                          {"all_int": all(not (isinstance(x, dict) and "slice" in x) for x in op["key"]), "internal": bool(m.internal)})
+                          {"all_int": all(not (isinstance(x, dict) and "slice" in x) for x in (op["key"] if isinstance(op["key"], list) else [op["key"]["bare"]])),
+                           "internal": bool(m.internal)})
                     probes["read"] = probes.get("read", 0) + 1
                 elif o == "to_array":
                     splat = op["splat"]
